@@ -7,10 +7,14 @@
   R14.4  documented rounding: `mod` is floored (book), so Rem may not be the bare truncating %
   R14.6  name <-> operator tables of the int builtins (lt/gt/le/ge/eq/ne, bit_*, add/sub/mul)
   R14.7  swapped or-patterns only in commutative operators
+  R14.8  no saturating float -> integer `as` cast yields a program integer (only allocation estimates)
+  R14.9  integer functions of the stdlib written in the language do not round a float quotient
+  R14.10 abs of the machine word only where i64::MIN is excluded
 """
+import os
 import re
-from .lib import astq
-from .lib.facts import walk, find_nodes
+from .lib import astq, mirq
+from .lib.facts import walk, find_nodes, strip_generics, op_local, op_place
 
 FILE = 'src/util/lazy_bigint.rs'
 CHECKED = {'checked_add': '+', 'checked_sub': '-', 'checked_mul': '*', 'checked_pow': 'pow'}
@@ -43,6 +47,13 @@ def is_short_ctor(n):
 def pat_str(p):
     t = re.sub(r'\s+', '', p.get('s', ''))
     return t.replace(',', ', ').replace('|', ' | ')
+
+
+# integer-valued library functions (written in the language) that round a float quotient, accepted with a reason
+FLOAT_ROUND_TRIP_OK = {
+    'helper': 'bisect: the quotient is len/2 of a sequence length (a usize that fits memory), far below 2^53',
+    'julian_day': 'calendar arithmetic on month / day fields and a year offset: exact for |year| < 2^51; dates are outside the integer clauses of the property',
+}
 
 
 def small_form_arith(ctx, r2, need=4):
@@ -340,3 +351,148 @@ def run(ctx):
                 r5.fail('Ord::cmp/%s-%s' % (('Short', 'Long') if x == 'S' else ('Long', 'Short')), '%s:%d' % (FILE, int(cb[0].span.split(':')[1])),
                         'comparing %s with %s returns %s; expected %s (decided by the sign of the big operand)' % (names[x], names[y], got, w))
     r5.need(4)
+
+    # ---------------- R14.8 no saturating float -> integer cast yields a program integer
+    r8 = ctx.rule('R14.8', 'float-to-integer `as` casts (saturating, inexact at the 64-bit edge) feed only allocation estimates')
+    n8 = 0
+    for b in ctx.mir.bodies:
+        if not (b.file.startswith('src/builtin/') or b.file.startswith('src/util/')):
+            continue
+        for i, j, s in b.stmts():
+            if s['k'] != 'assign' or s['rv']['k'] != 'cast' or s['rv'].get('ck') != 'FloatToInt':
+                continue
+            n8 += 1
+            ty = s['rv'].get('ty') or ''
+            cons = mirq.consumers(ctx.mir, b, s['place']['l']) if not s['place']['p'] else {'?'}
+            to_int = sorted(c for c in cons if re.search(r'(LazyBigint|BigInt|BigUint).*(from|From)|XValue::Int', c))
+            # where does the enclosing closure go?  an estimate handed to can_allocate_by is a size, not a value
+            estimate = False
+            if b.kind == 'closure':
+                for pb, ci, cj in mirq.closure_creation_sites(ctx.mir, b.id):
+                    cl = pb.blocks[ci]['stmts'][cj]['place']['l']
+                    for cbb, ct in pb.calls():
+                        if any(op_local(a) == cl for a in ct['args']) and strip_generics(ct.get('callee') or '').endswith('::can_allocate_by'):
+                            estimate = True
+            ok = (ty == 'usize' and not to_int) and (estimate or not to_int)
+            fn = strip_generics(ctx.mir.enclosing_fn(b)) if b.kind == 'closure' else b.nid
+            r8.inst({'fn': fn, 'site': mirq.site(b, i, j), 'target': ty, 'flows_to_integer_value': to_int, 'allocation_estimate': estimate}, ok=ok, kind=(b.nid, i, j))
+            if not ok:
+                r8.fail('%s/float-as-%s' % (fn, ty), mirq.site(b, i, j), 'a float is turned into %s with `as` (saturates, and the usual range guard `<= i64::MAX as f64` is itself rounded up to 2^63): the integer result is wrong at the 64-bit boundary; convert through the big-integer path' % ty)
+    r8.need(1)
+
+    # ---------------- R14.10 |i64::MIN| does not fit: abs on the machine word only where MIN is excluded
+    r10 = ctx.rule('R14.10', 'abs / negation-like methods on the machine word are applied only where i64::MIN has been excluded')
+    MIN_BITS = str(1 << 63)
+    for b in ctx.mir.bodies:
+        if not (b.file.startswith('src/builtin/') or b.file.startswith('src/util/')):
+            continue
+        for bb, t in b.calls():
+            nm = t.get('callee') or t.get('decl') or ''
+            if not re.search(r'(<i64 as num_traits::Signed>::abs|<impl i64>::abs|<i64 as num_traits::Signed>::abs_sub|<impl i64>::pow)$', nm):
+                continue
+            if nm.endswith('pow'):
+                continue
+            # the operand: a (reference to a) place; MIN excluded = a dominating switch on that place with an explicit MIN target
+            ap = op_place(t['args'][0]) if t['args'] else None
+            root = None
+            cur = ap['l'] if ap is not None else None
+            for _ in range(6):
+                ds = b.defs().get(cur, []) if cur is not None else []
+                if len(ds) == 1 and ds[0][0] == 'stmt' and ds[0][3]['rv']['k'] in ('ref', 'use', 'copyderef'):
+                    pl = ds[0][3]['rv'].get('place') or op_place(ds[0][3]['rv']['op'])
+                    if pl is None:
+                        break
+                    if [e for e in pl['p'] if e != '*']:
+                        root = pl
+                        break
+                    cur = pl['l']
+                else:
+                    break
+            guarded = False
+            for d in b.dominators().get(bb, ()):
+                tm = b.term(d)
+                if d == bb or tm['k'] != 'switch':
+                    continue
+                dp = op_place(tm['discr'])
+                if dp is None:
+                    continue
+                same = (root is not None and mirq._place_key(dp) == mirq._place_key(root)) or (root is None and cur is not None and dp['l'] == cur and not dp['p'])
+                if not same:
+                    # a copy of the place read into a temporary just before the switch
+                    k2, v2 = mirq.chase(b, dp['l']) if not dp['p'] else (None, None)
+                    if k2 == 'rv' and root is not None:
+                        pl2 = v2[2]['rv'].get('place') or (op_place(v2[2]['rv']['op']) if v2[2]['rv']['k'] == 'use' else None)
+                        same = pl2 is not None and mirq._place_key(pl2) == mirq._place_key(root)
+                if same:
+                    mins = [x for v, x in tm['targets'] if v == MIN_BITS or v == '-' + MIN_BITS]
+                    if mins and not mirq.dominates(b, mins[0], bb):
+                        guarded = True
+            r10.inst({'fn': b.nid, 'site': mirq.site(b, bb), 'min_excluded': guarded}, ok=guarded, kind=(b.nid, bb))
+            if not guarded:
+                r10.fail('%s/abs-of-word' % b.nid, mirq.site(b, bb), 'abs() of the machine word without excluding i64::MIN: |i64::MIN| does not fit and the call panics (overflow) for -2^63')
+    r10.need(1)
+
+    # ---------------- R14.9 integer functions of the stdlib (written in the language) do not go through floats
+    r9 = ctx.rule('R14.9', 'stdlib functions from integers to an integer do not round a float quotient (exact only below 2^53)')
+    inc = open(os.path.join(ctx.repo, 'src/builtin/include.rs')).read() if os.path.exists(os.path.join(ctx.repo, 'src/builtin/include.rs')) else ''
+    n9 = 0
+    for m in re.finditer(r'fn\s+(\w+)\s*(<[^>]*>)?\s*\(([^)]*)\)\s*->\s*int\s*\{', inc):
+        name, params = m.group(1), m.group(3)
+        i, d = m.end(), 1
+        while d and i < len(inc):
+            d += {'{': 1, '}': -1}.get(inc[i], 0)
+            i += 1
+        body = inc[m.end():i - 1]
+        n9 += 1
+        hits = []
+        for c in re.finditer(r'\b(trunc|floor|ceil|round)\s*\(', body):
+            j, d2 = c.end(), 1
+            while d2 and j < len(body):
+                d2 += {'(': 1, ')': -1}.get(body[j], 0)
+                j += 1
+            arg = body[c.end():j - 1]
+            if re.search(r'[^/]/[^/]', arg):
+                hits.append('%s(%s)' % (c.group(1), ' '.join(arg.split())))
+        if not hits:
+            r9.inst({'fn': name, 'float_round_trip': False}, kind=(name, m.start()))
+            continue
+        reason = FLOAT_ROUND_TRIP_OK.get(name)
+        line = inc.count('\n', 0, m.start()) + 1
+        r9.inst({'fn': name, 'rounded_quotients': hits, 'listed': bool(reason)}, ok=bool(reason), kind=(name, m.start()))
+        if reason:
+            r9.exempted(name, reason)
+        else:
+            r9.fail('include/%s/float-quotient' % name, 'src/builtin/include.rs:%d' % line, 'an integer function of the library computes %s: the quotient is a float, exact only below 2^53, so the integer result is wrong for large arguments; use div_floor / div_ceil' % hits[0])
+    r9.need(20)
+
+    # ---------------- R14.11 an integer spelling never becomes a float
+    r11 = ctx.rule('R14.11', 'the float parse of a number literal is reached only after the spelling has been tested for being an integer spelling')
+    from .lib import cdeps
+    for b in ctx.mir.bodies:
+        if b.file != 'src/parser.rs':
+            continue
+        for bb, t in b.calls():
+            nm = t.get('callee') or t.get('decl') or ''
+            if not (strip_generics(nm).endswith('str>::parse') and 'f64' in ' '.join(t.get('substs') or [nm])):
+                continue
+            L, S = cdeps.influence(b, blocks=[bb])
+            tested = False
+            for sw in S:
+                dl = op_local(b.term(sw)['discr'])
+                if dl is None:
+                    continue
+                for l in mirq.backslice(b, [dl]):
+                    for kind, dbb, idx, x in b.defs().get(l, []):
+                        if kind != 'call':
+                            continue
+                        cn = strip_generics(x.get('decl') or x.get('callee') or '')
+                        if re.search(r'(Iterator::all|Iterator::any|str>::contains|str>::find|str>::ends_with|str>::strip_suffix|is_ascii_digit|str>::chars|str>::bytes)$', cn):
+                            # the `_` separator test does not tell integers from floats
+                            consts = [a['const'].get('s') for a in x['args'] if 'const' in a]
+                            if any(c is not None and "'_'" in c for c in consts):
+                                continue
+                            tested = True
+            r11.inst({'fn': b.nid, 'site': mirq.site(b, bb), 'spelling_tested_before_float_parse': tested}, ok=tested, kind=(b.nid, bb))
+            if not tested:
+                r11.fail('parser/number-literal/integer-falls-to-float', mirq.site(b, bb), 'a number literal that fails the integer parse (too large for the literal representation) is handed to the float parse without asking whether it is spelled as an integer: 170141183460469231731687303715884105728 silently becomes 1.7014118346046923e38')
+    r11.need(1)
